@@ -346,6 +346,10 @@ func execute(ks *kits, ageBin string, c *cmdT, root string, limitBytes int) (*ou
 	case "same_keyfile":
 		o.outPath = keyFile
 		args = append(args, "-o", spell(keyFile))
+	case "tty":
+		// no -o; standard output will be a terminal (script(1) below)
+	case "tty_dash":
+		args = append(args, "-o", "-")
 	case "devnull":
 		args = append(args, "-o", "/dev/null")
 	case "fifo":
@@ -410,6 +414,15 @@ func execute(ks *kits, ageBin string, c *cmdT, root string, limitBytes int) (*ou
 		}
 		stdin = []byte(pw + "\n" + pw + "\n")
 		bin, argv = "script", []string{"-qec", cmdline, "/dev/null"}
+	}
+	if (c.Out == "tty" || c.Out == "tty_dash") && c.Key != "scrypt" {
+		// standard input, output and error of the command are a pseudo-terminal; what it prints comes back through script
+		q := make([]string, len(argv))
+		for i, a := range argv {
+			q[i] = "'" + a + "'"
+		}
+		bin, argv = "script", []string{"-qec", "'" + bin + "' " + strings.Join(q, " "), "/dev/null"}
+		stdin = []byte{}
 	}
 	p := runProc(dir, stdin, stdoutFile, bin, argv...)
 	if stdoutFile != nil {
@@ -476,6 +489,20 @@ func delivered(ks *kits, c *cmdT, o *outcome, want []byte, fullLen int) bool {
 		return c.Op == "dec" && len(want) == 0
 	case "devnull":
 		return true // it takes everything and shows nothing: the result reached it whenever there was one
+	case "tty", "tty_dash":
+		// what the terminal received, with the line discipline's CR LF undone
+		seen := bytes.ReplaceAll(o.stdout, []byte("\r\n"), []byte("\n"))
+		if c.Armor {
+			i := bytes.Index(seen, []byte("-----BEGIN AGE ENCRYPTED FILE-----"))
+			j := bytes.Index(seen, []byte("-----END AGE ENCRYPTED FILE-----"))
+			if i < 0 || j < i {
+				return false
+			}
+			pt, err := libDecrypt(ks.k[c.Key].identity, append(seen[i:j:j], []byte("-----END AGE ENCRYPTED FILE-----\n")...))
+			return err == nil && bytes.Equal(pt, want)
+		}
+		// binary on a terminal cannot be recovered exactly (the line discipline rewrites LF); its presence is what counts
+		return bytes.Contains(seen, []byte("age-encryption.org/v1"))
 	case "same_input", "same_keyfile":
 		return false
 	default:
@@ -552,8 +579,8 @@ func statusSig(c *cmdT) string {
 // Run is the C15 check.
 func Run(tier string) {
 	run := vk.NewRun("C15", tier, "model_checking")
-	run.Rule("TLC (Cli.tla) runs the phases of main() (flags, same-file check, open input, keys, header, lazy open, copy, close) for every command in the enumerated space: {encrypt with -r/-R/-e -i/-p, decrypt with -i/passphrase} x {x25519, ssh-ed25519, ssh-rsa, scrypt} x armor x input {file, pipe, missing} x size {0, 5, 131073} x damage {none, header bit, MAC, first/last payload chunk, truncation, wrong key, garbage} x output {stdout, -o new/existing/missing directory/under a regular file, -o naming the input or a key file under 5 spellings, /dev/full as -o and as stdout, /dev/null, a FIFO with a reader, size-limited at 5 positions} plus invalid flag combinations; it checks ExitZeroIffDelivered / HeaderRefusalLeavesOutputAlone / SameFileRefused on the machine and emits the expected exit class and output state; a covering stripe (all commands in thorough) is executed with the real binaries built from /repo (prlimit for size limits, script(1) for a controlling terminal), and exit status, output file state and content are judged; size limits at every byte offset for small outputs; age-keygen over {stdout, -o new, -o existing, -y file/stdin, bad input, extra arguments} x output faults. Distinct = command signature.")
-	run.Assume("symlink/hard-link aliases of the age -o file (age-keygen: covered), TTY output refusal and Windows paths are not generated; passphrase encryption runs are few (work factor 18 costs ~1 s each)")
+	run.Rule("TLC (Cli.tla) runs the phases of main() (flags, same-file check, open input, keys, header, lazy open, copy, close) for every command in the enumerated space: {encrypt with -r/-R/-e -i/-p, decrypt with -i/passphrase} x {x25519, ssh-ed25519, ssh-rsa, scrypt} x armor x input {file, pipe, missing} x size {0, 5, 131073} x damage {none, header bit, MAC, first/last payload chunk, truncation, wrong key, garbage} x output {stdout, -o new/existing/missing directory/under a regular file, -o naming the input or a key file under 5 spellings, /dev/full as -o and as stdout, /dev/null, a FIFO with a reader, a terminal with and without -o -, size-limited at 5 positions} plus invalid flag combinations; it checks ExitZeroIffDelivered / HeaderRefusalLeavesOutputAlone / SameFileRefused on the machine and emits the expected exit class and output state; a covering stripe (all commands in thorough) is executed with the real binaries built from /repo (prlimit for size limits, script(1) for a controlling terminal), and exit status, output file state and content are judged; size limits at every byte offset for small outputs; age-keygen over {stdout, -o new, -o existing, -y file/stdin, bad input, extra arguments} x output faults. Distinct = command signature.")
+	run.Assume("symlink/hard-link aliases of the age -o file (age-keygen: covered), terminal INPUT (bufferTerminalInput) and Windows paths are not generated; passphrase encryption runs are few (work factor 18 costs ~1 s each)")
 	bin := vk.BuildCLI()
 	ageBin := filepath.Join(bin, "age")
 	root, err := os.MkdirTemp("", "c15-")
@@ -582,7 +609,7 @@ func Run(tier string) {
 			continue // an empty result for a full device: whether that is "delivered" is not decided by the property
 		}
 		interesting := c.Cmd.Flagerr != "none" || c.Cmd.Input == "missing" || (c.Cmd.Size == 0 && c.Cmd.Out != "stdout" && c.Cmd.Out != "new")
-		nonRegular := (c.Cmd.Out == "devnull" || c.Cmd.Out == "fifo") && c.Cmd.Key != "scrypt" && (i+int(run.Seed))%3 == 0
+		nonRegular := ((c.Cmd.Out == "devnull" || c.Cmd.Out == "fifo") && c.Cmd.Key != "scrypt" && (i+int(run.Seed))%3 == 0) || c.Cmd.Out == "tty" || c.Cmd.Out == "tty_dash"
 		if !run.Thorough() && !interesting && !nonRegular && (i+int(run.Seed))%7 != 0 {
 			continue
 		}
